@@ -309,7 +309,7 @@ def copy_mid_load(task):
 
             def worker():
                 try:
-                    gate_ready.wait(10)
+                    gate_ready.wait(60)
                     v = tree[f"imagery/{im['group']}/data"].isel(rows=[0, 1, 2, 3]).values
                     box["first"] = oracle.pixels_match(v, im, rows=[0, 1, 2, 3])
                     for how, cp in list(copies.items()):
@@ -326,7 +326,7 @@ def copy_mid_load(task):
             gate = _Gate(t.ident, k)
             tracefs.SCHED[0] = gate
             gate_ready.set()
-            parked = gate.reached.wait(10)
+            parked = gate.reached.wait(60)
             try:
                 copies["pickled copy"] = pickle.loads(pickle.dumps(tree))
                 copies["deep copy"] = copy.deepcopy(tree)
